@@ -513,6 +513,9 @@ var msgDefs = map[string]string{
 	"pkg_b/msg/Inner":  "Deep d\npkg_a/Leaf l\n",
 	"pkg_b/msg/Deep":   "# comment\nuint8 z\n",
 	"pkg_a/msg/Simple": "string data\n",
+	// names that end in another type's name and sort before it in the package's resource index
+	"pkg_a/msg/AltLeaf": "int8 alt\nLeaf plain\n",
+	"pkg_b/msg/ADeep":   "Deep[] many\n",
 }
 
 // expectedSchema concatenates the definitions breadth-first with de-duplication, as the converter is documented to.
@@ -575,7 +578,7 @@ func writeAmentTree(root string) error {
 		if err := os.WriteFile(filepath.Join(d, p[2]+".msg"), []byte(def), 0o644); err != nil {
 			return err
 		}
-		idx[p[0]] = append(idx[p[0]], "msg/"+p[2]+".msg")
+		idx[p[0]] = append(idx[p[0]], "msg/"+p[2]+".msg", "msg/"+p[2]+".idl") // as colcon writes it: the .idl next to the .msg
 	}
 	for pkg, lines := range idx {
 		d := filepath.Join(root, "share", "ament_index", "resource_index", "rosidl_interfaces")
@@ -592,7 +595,7 @@ func writeAmentTree(root string) error {
 
 func genDB(r *rand.Rand) *dbSpec {
 	d := &dbSpec{HasQOS: r.Intn(3) != 0}
-	types := []string{"pkg_a/msg/Top", "pkg_a/msg/Simple", "pkg_b/msg/Inner", "pkg_a/msg/Leaf"}
+	types := []string{"pkg_a/msg/Top", "pkg_a/msg/Simple", "pkg_b/msg/Inner", "pkg_a/msg/Leaf", "pkg_a/msg/AltLeaf", "pkg_b/msg/ADeep", "pkg_b/msg/Deep"}
 	nt := 1 + r.Intn(4)
 	ids := r.Perm(6)
 	for i := 0; i < nt; i++ {
